@@ -32,7 +32,7 @@ Lemma unc_close s fd : unc s -> unc (k_close s fd).
 Proof. apply unc_with_tab. Qed.
 
 Lemma k_open_unc s p r w fl f' k :
-  unc s -> k_resolve (k_fs s) p fl = (f', Ok k) ->
+  unc s -> k_resolve (k_fs s) p w fl = (f', Ok k) ->
   exists s' c, k_open s p r w fl = (s', Ok c) /\ unc s'.
 Proof.
   intros Hu Hr. unfold k_open. rewrite Hr. cbn [new_ofd].
@@ -41,14 +41,14 @@ Proof.
 Qed.
 
 Lemma k_open_err_unc s p r w fl f' e :
-  unc s -> k_resolve (k_fs s) p fl = (f', Err e) ->
+  unc s -> k_resolve (k_fs s) p w fl = (f', Err e) ->
   k_open s p r w fl = (with_fs s f', Err e).
 Proof. intros _ Hr. unfold k_open. rewrite Hr. reflexivity. Qed.
 
 Lemma sopen_resolve f p r w fl f' o :
-  sopen f p r w fl = Some (f', o) -> exists k, k_resolve f p fl = (f', Ok k).
+  sopen f p r w fl = Some (f', o) -> exists k, k_resolve f p w fl = (f', Ok k).
 Proof.
-  unfold sopen. destruct (k_resolve f p fl) as [f1 [k|e]]; [|discriminate].
+  unfold sopen. destruct (k_resolve f p w fl) as [f1 [k|e]]; [|discriminate].
   intros E. injection E as <- _. eauto.
 Qed.
 
@@ -69,25 +69,8 @@ Proof.
   - destruct op; try (apply open_file_unc; assumption).
     destruct nc; [|apply open_file_unc; assumption].
     destruct p as [k|]; [|discriminate].
-    destruct (fs_get (k_fs s) k) as [[cc dd|]|] eqn:Eg; [discriminate| |].
-    + (* a directory: EEXIST, then opened as it is *)
-      intros _. unfold open_file_noclobber.
-      rewrite (k_open_err_unc s (PKey k) false true fl_excl (k_fs s) EEXIST Hu)
-        by (eapply k_resolve_excl_exists; exact Eg).
-      assert (unc (with_fs s (k_fs s))) as Hu1 by (apply unc_with_fs; exact Hu).
-      destruct (k_open_unc (with_fs s (k_fs s)) (PKey k) false true fl_none (k_fs s) k Hu1)
-        as [sb [c [Ho Hub]]].
-      { cbn. eapply k_resolve_none_exists. exact Eg. }
-      rewrite Ho.
-      assert (is_regular_fd sb c = false) as ->.
-      { pose proof (k_open_tab _ _ _ _ _ _ _ Ho) as [_ [Et _]].
-        apply k_open_ok_full in Ho. destruct Ho as [fx [kx [Er [Ef [En Eo]]]]].
-        cbn [k_fs with_fs] in Er. rewrite (k_resolve_none_exists _ _ _ Eg) in Er. injection Er as <- <-.
-        unfold is_regular_fd, k_ofd_of. rewrite Et, lookup_tset, N.eqb_refl. cbn [e_ofd].
-        rewrite Eo. cbn [ofd_get k_next with_fs]. rewrite N.eqb_refl. cbn [o_file].
-        rewrite Ef, Eg. reflexivity. }
-      eauto.
-    + (* missing: created exclusively *)
+    destruct (fs_get (k_fs s) k) as [[cc dd|]|] eqn:Eg; [discriminate|discriminate|].
+    (* missing: created exclusively *)
       intros _. unfold open_file_noclobber.
       destruct (k_open_unc s (PKey k) false true fl_excl (fs_set (k_fs s) k (Reg [] false)) k Hu)
         as [sa [c [Ho Hua]]].
@@ -109,8 +92,8 @@ Lemma k_dup2_unc s from to e :
   unc s -> lookup (k_tab s) from = Some e ->
   exists s', k_dup2 s from to = (s', true) /\ unc s'.
 Proof.
-  intros [Hf Hl] Hfrom. unfold k_dup2, t_dup2. rewrite Hfrom, Hl. cbn.
-  eexists. split; [reflexivity|]. split; assumption.
+  intros [Hf Hl] Hfrom. unfold k_dup2, t_dup2. rewrite Hfrom, Hl.
+  destruct (N.eqb from to); cbn; (eexists; split; [reflexivity|]; split; assumption).
 Qed.
 
 (* [apply] succeeds *)
